@@ -134,7 +134,7 @@ func runPlan(t *testing.T, p *Plan, c *checker) {
 			c.step = si
 			switch st.Op {
 			case "spawn":
-				e := &entry{idx: len(reg), kind: st.Kind, depth: st.Depth, locked: st.Locked, creator: st.Creator % 4, alive: true, minutes: st.Minutes,
+				e := &entry{idx: len(reg), kind: st.Kind, depth: st.Depth, locked: st.Locked, creator: st.Creator % 4, alive: true, minutes: st.Minutes, hop: st.Hop,
 					ch: make(chan int), ch2: make(chan int), started: make(chan struct{})}
 				e.cond = sync.NewCond(&e.mu)
 				if e.kind == "wg" {
